@@ -80,6 +80,8 @@ func (l *UnixSock) Serve(establish EstablishFn) {
 					l.log.Warn("", "error", err)
 				}
 			}()
+		} else {
+			_ = conn.Close() // the listener was closed while this connection was being accepted: it is not served
 		}
 	}
 }
